@@ -92,15 +92,19 @@ def arc_center(
     # start with initial results
     result = {"center": center, "radius": radius}
     if return_normal:
+        # use the edge vectors scaled to the shortest edge: the cross
+        # product of the raw edges of a very small arc is below the
+        # absolute zero threshold of `unitize` and would not be unitized
+        scaled = vectors / scale
         if points.shape == (3, 2):
             # for 2D arcs still use the cross product so that
             # the sign of the normal vector is consistent
             result["normal"] = util.unitize(
-                np.cross(np.append(-vectors[1], 0), np.append(vectors[2], 0))
+                np.cross(np.append(-scaled[1], 0), np.append(scaled[2], 0))
             )
         else:
             # otherwise just take the cross product
-            result["normal"] = util.unitize(np.cross(-vectors[1], vectors[2]))
+            result["normal"] = util.unitize(np.cross(-scaled[1], scaled[2]))
 
     if return_angle:
         # vectors from points on arc to center point
